@@ -597,7 +597,8 @@ def to_special(u: np.ndarray) -> np.ndarray:
         the special unitary matrix
     """
     with np.errstate(divide="ignore", invalid="ignore"):
-        return u * (np.linalg.det(u) ** (-1 / len(u)))
+        # complex(): a real-dtype input with negative determinant would give nan (negative float to a fractional power)
+        return u * (complex(np.linalg.det(u)) ** (-1 / len(u)))
 
 
 def state_vector_kronecker_product(t1: np.ndarray, t2: np.ndarray) -> np.ndarray:
